@@ -160,6 +160,111 @@ class Coupled:
         return names
 
 
+class CoupledRod(Coupled):
+    """Flow + Cosserat rod stepped by PyElastica's own PositionVerlet with FlowForces attached (the
+    upstream restart example's set-up): 2-D edge forcing grid / 3-D surface forcing grid."""
+
+    def __init__(self, cfg, time=0.0):
+        import elastica as ea
+        import sopht.simulator as sps
+
+        c = simcfg.normalise(cfg)
+        self.c = c
+        self.dim = simcfg.dim_of(c["kind"])
+        dx = lagcomm.DXS[0]
+        c["shape"] = lagcomm.SHAPES[self.dim]
+        c["x_range"] = dx * c["shape"][-1]
+        c["forcing"] = True
+        self.real_t = np.dtype(c["dtype"]).type
+        self.sim = simcfg.make_sim(c)
+        self.sim.time = time
+        shape = c["shape"]
+        start = np.array([shape[-1] * dx * 0.3, shape[-2] * dx * 0.5, shape[0] * dx * 0.5 if self.dim == 3 else 0.0])
+
+        class _Sim(ea.BaseSystemCollection, ea.Constraints, ea.Forcing, ea.Damping):
+            pass
+
+        self.body = ea.CosseratRod.straight_rod(n_elements=3, start=start, direction=np.array([1.0, 0.0, 0.0]), normal=np.array([0.0, 1.0, 0.0]),
+                                                base_length=0.6, base_radius=0.05, density=1e3, youngs_modulus=1e5, shear_modulus=1e5 / 1.5)
+        self.body.velocity_collection[1, :] = 0.2 * np.arange(4)  # the rod swings
+        if self.dim == 3:
+            self.body.omega_collection[0, :] = 0.8
+        self.env = _Sim()
+        self.env.append(self.body)
+        if self.dim == 2:
+            cls, kw = sps.CosseratRodEdgeForcingGrid, {}
+        else:
+            cls, kw = sps.CosseratRodSurfaceForcingGrid, {"surface_grid_density_for_largest_element": 4}
+        self.inter = sps.CosseratRodFlowInteraction(
+            cosserat_rod=self.body, eul_grid_forcing_field=self.sim.eul_grid_forcing_field, eul_grid_velocity_field=self.sim.velocity_field,
+            virtual_boundary_stiffness_coeff=-20.0, virtual_boundary_damping_coeff=-2.0, dx=self.sim.dx, grid_dim=self.dim, real_t=self.real_t,
+            forcing_grid_cls=cls, start_time=time, **kw)
+        self.env.add_forcing_to(self.body).using(sps.FlowForces, self.inter)
+        self.env.dampen(self.body).using(ea.AnalyticalLinearDamper, damping_constant=0.5, time_step=1e-3)
+        self.env.finalize()
+        self.stepper = ea.PositionVerlet()
+        self.free_stream = simcfg.free_stream(c) if c["stream"] else None
+        self.body_time = time
+
+    def step(self):
+        sim, inter = self.sim, self.inter
+        dt = float(min(sim.compute_stable_timestep(dt_prefac=0.5), 0.02))
+        sub = 3
+        for _ in range(sub):
+            self.body_time = float(self.stepper.step(self.env, self.body_time, dt / sub))
+            inter.time_step(dt=dt / sub)
+        inter()
+        kw = {"free_stream_velocity": self.free_stream} if self.free_stream is not None else {}
+        sim.time_step(dt=dt, **kw)
+        return dt
+
+    def _body_arrays(self):
+        return {k: v for k, v in vars(self.body).items() if isinstance(v, np.ndarray)}
+
+    def public(self):
+        b = self.body
+        return {
+            "vorticity": self.sim.vorticity_field.copy(), "velocity": self.sim.velocity_field.copy(), "time": float(self.sim.time),
+            "pos_mismatch": self.inter.lag_grid_position_mismatch_field.copy(), "vel_mismatch": self.inter.lag_grid_velocity_mismatch_field.copy(),
+            "forcing_time": float(self.inter.time),
+            "body": np.concatenate([b.position_collection.ravel(), b.director_collection.ravel(), b.velocity_collection.ravel(), b.omega_collection.ravel()]),
+        }
+
+    def save(self, d, k):
+        io, fio = self.ios()
+        io.save(h5_file_name=os.path.join(d, f"sopht_{k:04d}.h5"), time=self.sim.time)
+        fio.save(h5_file_name=os.path.join(d, f"forcing_grid_{k:04d}.h5"), time=self.sim.time)
+        np.savez(os.path.join(d, f"body_{k:04d}.npz"), **self._body_arrays())
+
+    @classmethod
+    def resume(cls, cfg, d, k):
+        import h5py
+
+        with h5py.File(os.path.join(d, f"sopht_{k:04d}.h5"), "r") as f:
+            t = float(f.attrs["time"])
+        s = cls(cfg, time=t)
+        z = np.load(os.path.join(d, f"body_{k:04d}.npz"))
+        for name, arr in s._body_arrays().items():
+            if name in z.files and z[name].shape == arr.shape:
+                arr[...] = z[name]
+        io, fio = s.ios()
+        t1 = io.load(h5_file_name=os.path.join(d, f"sopht_{k:04d}.h5"))
+        fio.load(h5_file_name=os.path.join(d, f"forcing_grid_{k:04d}.h5"))
+        s.sim.time = float(t1)
+        s.body_time = float(t1)
+        return s
+
+    def scratch_arrays(self):
+        out = Coupled.scratch_arrays(self)
+        g = self.inter.forcing_grid
+        for k, v in vars(g).items():
+            if isinstance(v, np.ndarray) and k not in ("position_field",) and v.dtype.kind == "f" and k not in ("local_frame_surface_points", "grid_point_radius_ratio", "z_vector"):
+                # element_forces_*_edge_nodes: only the in-plane rows are scratch (row 2 is a constant zero
+                # that no call rewrites; poisoning it would not model hidden state but corrupt a constant)
+                out[f"grid.{k}"] = v[: self.dim] if k.startswith("element_forces_") else v
+        return out
+
+
 def _cmp(fails, tag, got, want, eps, ctx):
     for key in ("vorticity", "velocity", "pos_mismatch", "vel_mismatch", "body"):
         g, w = got[key].astype(np.float64), want[key].astype(np.float64)
@@ -173,14 +278,16 @@ def _cmp(fails, tag, got, want, eps, ctx):
 
 
 def case_resume(cfg, K, poisons, seed):
-    c = simcfg.normalise(cfg)
+    c = simcfg.normalise({k: v for k, v in cfg.items() if k != "body"})
     eps = float(np.finfo(np.dtype(c["dtype"]).type).eps)
     d = _scratch()
     fails = []
     states = trans = 0
     tag = f"resume:{c['kind']}"
+    Cls = CoupledRod if cfg.get("body") == "rod" else Coupled
+    cfg = {k: v for k, v in cfg.items() if k != "body"}
     try:
-        run = Coupled(cfg)
+        run = Cls(cfg)
         run.init_state(seed)
         traj = [run.public()]
         run.save(d, 0)
@@ -193,12 +300,12 @@ def case_resume(cfg, K, poisons, seed):
             from harness.interp import HarnessError
 
             raise HarnessError("C18 vacuous run: no interaction / no flow")
-        scratch_names = ["none", "all"] + (list(Coupled(cfg).scratch_arrays()) if poisons == "each" else [])
+        scratch_names = ["none", "all"] + (list(Cls(cfg).scratch_arrays()) if poisons == "each" else [])
         for k in range(0, K + 1):
             for which in scratch_names:
                 if which not in ("none", "all") and k not in (1, K - 1):
                     continue  # single-buffer poisoning at two representative checkpoints
-                res = Coupled.resume(cfg, d, k)
+                res = Cls.resume(cfg, d, k)
                 ctx = dict(cfg=c, checkpoint=k, poisoned=which)
                 _cmp(fails, f"{tag}:at-load", res.public(), traj[k], 0.0, ctx)
                 res.poison(which)
@@ -306,7 +413,11 @@ def run(r) -> None:
     for kind, axes in lat.items():
         for i, pt in enumerate(explore.lattice(axes, 1 if quick else 2)):
             cases.append(dict(cfg={"kind": kind, **pt}, K=K, poisons="each" if i == 0 or (not quick and i < 6) else "all", seed=r.seed))
-    cases.sort(key=lambda c: (c["poisons"] != "each", c["cfg"]["kind"] != "ns3d"))
+    # Cosserat rods stepped by PyElastica (FlowForces inside the body stepper), edge grid in 2-D, surface grid in 3-D
+    for kind in ("ns2d", "ns3d"):
+        for dt_ in (("float64",) if quick else ("float64", "float32")):
+            cases.append(dict(cfg={"kind": kind, "body": "rod", "dtype": dt_, "stream": True, "params": [1e-2, 5e-2, 1.7]}, K=K, poisons="each" if dt_ == "float64" else "all", seed=r.seed))
+    cases.sort(key=lambda c: (c["cfg"].get("body") != "rod", c["poisons"] != "each", c["cfg"]["kind"] != "ns3d"))
     r.run_cases("resume", "resume", cases)
     names = [0, 3, 10]
     helper = [dict(present=list(sub), body_time_equal=eq) for n in range(len(names) + 1) for sub in itertools.combinations(names, n) for eq in (True, False)]
